@@ -17,11 +17,13 @@ def consts(path):
                 pass
     return out
 
+READY_FILE = os.path.join(ROOT, "tools", "ready.txt")
+ready = set(open(READY_FILE).read().split()) if os.path.exists(READY_FILE) else None
 checks, na = [], []
 for p in props:
     pid = p["id"]
     path = os.path.join(ROOT, "checks", f"{pid}.py")
-    if os.path.exists(path) and pid not in na_reasons:
+    if os.path.exists(path) and pid not in na_reasons and (ready is None or pid in ready):
         c = consts(path)
         entry = {
             "property_id": pid,
@@ -36,7 +38,7 @@ for p in props:
         }
         checks.append(entry)
     else:
-        na.append({"property_id": pid, "reason": na_reasons.get(pid, "no check built yet in this session (planned: DESIGN.md §5); not claimed")})
+        na.append({"property_id": pid, "reason": na_reasons.get(pid, ("check written but not yet validated on the unchanged tree; not claimed" if os.path.exists(path) else "no check built yet (planned: DESIGN.md §5); not claimed"))})
 
 manifest = {
     "version": 1,
